@@ -45,7 +45,7 @@ LEVEL_TEXT = ("For each of the ~344 registered functions the arity bounds are de
               "limit (98 points) or an error is reported there. Not decided: floating-point accuracy of "
               "the formulas (cancellation, overflow), GSL's own values, and special points of "
               "transcendentals without a series in the table (listed in the evidence)."
-              "  Also decided (added after the seeded rounds): the integer-argument helpers accept exactly the doubles their integer type represents.")
+              "  Also decided (added after the seeded rounds): the integer-argument helpers accept exactly the doubles their integer type represents; lambert_W0 / Wm1, whose domain error is a status with a finite value, are called in the _e form with the status tested.")
 LEVEL_NOTE = ("Trusted: clang 14 front end/CFG, tool/mpx.cc, tool/stubs/funcadd.h (field names of ASL's "
               "arglist), the rule module. The GSL library itself is outside the analysis.")
 DESIGN_REF = "DESIGN.md section 4, C16"
